@@ -577,6 +577,12 @@ class Ref:
         return self.leaf.predict(fh)
 
 
+def _uses_optimiser(spec):
+    """a numerically optimised leaf (exponential smoothing family) somewhere in the composition: its fitted parameters move in the 7th digit
+    when its input moves in the 12th, which it does between the package's least-squares detrender and the reference's own"""
+    return spec[0] in ("es", "ets", "theta") or any(_uses_optimiser(c) for c in zoo.children(spec))
+
+
 def _run_ref(case, ctx):
     from sktime.forecasting.base import ForecastingHorizon
 
@@ -600,12 +606,27 @@ def _run_ref(case, ctx):
             y0 = zoo.make_series(rng, zoo.min_length(spec) + 14, positive=True, off=off + 5, kind="walk")
             used.fit(y0, fh=fh)
             used.predict(fh)
-            used.set_params(**real.get_params(deep=False))
+            target = real.get_params(deep=False)
+            attr_ = "steps" if "steps" in target else "forecasters"
+            if case["dseed"] % 8 == 0 and isinstance(target.get(attr_), list) and len(target[attr_]) >= 2:
+                # the whole list and one component by name in ONE call: the list holds a stand-in at that place, the call names the real part
+                # (documented order: list first, then replacement by name)
+                j_ = (case["dseed"] // 8) % len(target[attr_])
+                nm_, comp_ = target[attr_][j_]
+                from sktime.forecasting.base import BaseForecaster
+                from sktime.transformations.series.boxcox import LogTransformer
+                stand_in = zoo.build(simple) if isinstance(comp_, BaseForecaster) else LogTransformer()
+                lst_ = [(n_, (stand_in if i_ == j_ else c_)) for i_, (n_, c_) in enumerate(target[attr_])]
+                used.set_params(**dict({k_: v_ for k_, v_ in target.items() if k_ != attr_}, **{attr_: lst_, nm_: comp_}))
+                ctx.tag("composite:reconfigured-with-list-and-named-part-in-one-call")
+            else:
+                used.set_params(**target)
             real = used
             ctx.tag("composite:reconfigured-after-an-earlier-fit")
         except Exception as e:  # noqa
             ctx.tag("earlier-life-failed:" + type(e).__name__)
             real = zoo.build(spec)
+    TOL = 2e-5 if _uses_optimiser(spec) else 1e-7
     cutoff = int(y.index[-1])
     # a horizon-dependent forecaster keeps the horizon it was fitted with: an absolute one refers to fixed time points and
     # cannot follow the cutoff through updates, so absolute horizons are only combined with updates for the others
@@ -623,7 +644,7 @@ def _run_ref(case, ctx):
     if not ok:
         return
     pr = ref.predict(fh)
-    ctx.check("ref.fit-predict", [int(v) for v in p.index] == [cutoff + h for h in fh] and _same(p.values, pr.values, 1e-7),
+    ctx.check("ref.fit-predict", [int(v) for v in p.index] == [cutoff + h for h in fh] and _same(p.values, pr.values, TOL),
               "composite:%s:forecast-differs-from-composition-of-parts" % spec[0], "composite forecast differs from the composition of its parts after fit",
               spec=zoo.describe(spec), got=p.values.tolist(), expected=pr.values.tolist())
     if spec[0] == "pipeline":
@@ -669,7 +690,7 @@ def _run_ref(case, ctx):
         ok, p = ctx.call("composite:predict-after-update-exception:" + spec[0], real.predict, fa)
         if not ok:
             return
-        ctx.check("ref.after-update", [int(v) for v in p.index] == [c2 + h for h in fh] and _same(p.values, pr.values, 1e-7),
+        ctx.check("ref.after-update", [int(v) for v in p.index] == [c2 + h for h in fh] and _same(p.values, pr.values, TOL),
                   "composite:%s:forecast-after-update-differs-from-composition-of-parts" % spec[0],
                   "composite forecast after update differs from updating the parts", spec=zoo.describe(spec), update_params=up, got=p.values.tolist(),
                   expected=pr.values.tolist())
